@@ -694,6 +694,15 @@ class _Stmt:
             if isinstance(s, ast.AnnAssign) and s.value is not None and (self.t.f.name != "__init__" or _scalar_annotation(s.annotation)):
                 s = ast.copy_location(ast.Assign(targets=[s.target], value=s.value, lineno=s.lineno), s)
                 self.changed = True
+            # a, b = (X1, Y1) if c else (X2, Y2)  ->  a, b = (X1 if c else X2), (Y1 if c else Y2)     (c a plain name / constant test)
+            if isinstance(s, ast.Assign) and len(s.targets) == 1 and isinstance(s.targets[0], ast.Tuple) and isinstance(s.value, ast.IfExp) \
+                    and isinstance(s.value.body, ast.Tuple) and isinstance(s.value.orelse, ast.Tuple) \
+                    and len(s.value.body.elts) == len(s.value.orelse.elts) == len(s.targets[0].elts) \
+                    and not any(isinstance(x, ast.Call) for x in ast.walk(s.value.test)):
+                s = ast.copy_location(ast.Assign(targets=s.targets, value=ast.Tuple(elts=[
+                    ast.IfExp(test=copy.deepcopy(s.value.test), body=a_, orelse=b_) for a_, b_ in zip(s.value.body.elts, s.value.orelse.elts)], ctx=ast.Load()),
+                    lineno=s.lineno), s)
+                self.changed = True
             # a, b = X, Y  ->  a = X; b = Y     (plain names on the left that none of the values reads: nothing is swapped)
             if isinstance(s, ast.Assign) and len(s.targets) == 1 and isinstance(s.targets[0], ast.Tuple) and isinstance(s.value, ast.Tuple) \
                     and len(s.targets[0].elts) == len(s.value.elts) and all(isinstance(t, ast.Name) for t in s.targets[0].elts) \
